@@ -107,7 +107,22 @@ def run(chk, tier):
     chk.floor("R-PROG", "in-scope loops", nl, 18)
     import uninit
     uninit.wire(chk, P, UTIL_UNITS + LSTOPO_UNITS + ["lstopo-draw.c", "lstopo-ascii.c", "lstopo-fig.c", "lstopo-svg.c", "lstopo-tikz.c", "lstopo-shmem.c", "hwloc-ps.c", "hwloc-gather-cpuid.c", "hwloc-dump-hwdata.c"], 12, 3)
-    chk.decided += ["hwloc-calc's level width and i-th object use the same inclusion filter (all feasible predicate valuations)",
+    chk.rule("R-TRUNCTEST", "the test that decides whether a length-returning producer of the public API (or libc snprintf) truncated treats `length == size` as truncated: every comparison between the result and the size "
+             "handed over is evaluated with the length at size-1, size and size+1; its truth value must change exactly between size-1 and size (however the comparison is written)")
+    import trunctest, os as _os
+    from prog import ExampleProgram
+    from report import Check as _Check
+    ntt = trunctest.run(chk, P, units=[_os.path.basename(k9) for k9 in P.db if "/utils/" in k9])
+    ex = _Check("C20-example")
+    EX = ExampleProgram(["trunctest.c"])
+    trunctest.run(ex, EX, funcs=list(EX.all_funcs()))
+    got = dict((i["function"], i["ok"]) for i in ex.instances)
+    okx = got == {"render_bad": False, "render_good": True}
+    chk.need(okx, "R-TRUNCTEST: the positive example selftest/examples/trunctest.c is not judged as expected (%s)" % got)
+    chk.inst("R-TRUNCTEST", "<example>", "trunctest.c", okx, "positive example: `len > sizeof(buf)` fires, `len + 1 > sizeof(buf)` does not", loc="selftest/examples/trunctest.c", nontrivial=False)
+    chk.floor("R-TRUNCTEST", "truncation tests on producer results in the tools + positive example", ntt + 1, 2)
+    chk.decided += ["lstopo's synthetic output is re-exported into a large enough buffer whenever the library reports a length that does not fit the first one (boundary of the truncation test)",
+                    "hwloc-calc's level width and i-th object use the same inclusion filter (all feasible predicate valuations)",
                     'values filled by fallible readers in the tools are not read after a failure',
                     'buffers allocated by the tools for snprintf-like API calls are handed over with their allocated size (no truncated export)',
                     "hwloc-calc's operators map to the documented set operations", "tools never mix cpusets and nodesets", "no NULL object name/subtype or optional argument pointer is used as a string (no crash on unnamed objects)",
